@@ -374,6 +374,47 @@ def plan_C16(ctx):
     ctx.exhaustive = True   # the TLC-enumerated family; the random records on top of it are sampled
 
 
+def suite_traces(ctx):
+    """The CCF lesson: run the repository's OWN test suite with the hooks on and the trace sink set, and let TLC
+    validate every apply call it made (result and hook-event stream) against the specification."""
+    import shutil, subprocess
+    sd = os.path.join(vcheck.WORK, "suite")
+    os.makedirs(sd, exist_ok=True)
+    sink = os.path.join(sd, "trace.ndjson")
+    if os.path.exists(sink):
+        os.remove(sink)
+    rc, out = vcheck.run(["cargo", "test", "--offline", "--target-dir", os.path.join(sd, "target")], cwd="/repo",
+                         env={"RUSTFLAGS": "--cfg jsonlogic_rs_verif --check-cfg cfg(jsonlogic_rs_verif)", "JSONLOGIC_RS_VERIF_TRACE": sink, "CARGO_NET_OFFLINE": "true"}, timeout=1800)
+    shutil.rmtree(os.path.join(sd, "target"), ignore_errors=True)      # 630 MB of dev-dependency build output
+    if rc != 0 and not os.path.exists(sink):
+        raise ToolError("could not run the repository's tests with hooks on:\n" + out[-2000:])
+    b = ctx.bins(("release",))["release"]
+    ev = os.path.join(ctx.wd, "suite-events.ndjson")
+    rec = os.path.join(ctx.wd, "suite-records.ndjson")
+    rc, out = vcheck.run([b, "convert-trace", sink, ev, rec])
+    if rc != 0:
+        raise ToolError("convert-trace failed: " + out[-1000:])
+    info = json.loads(out.strip().splitlines()[-1])
+    import re
+    res = vcheck.run_tlc(ctx.wd, "TV_Call", env={"VERIF_TRACE": rec}, timeout=1800, subdir="tv", tag="TV_Call_suite")
+    if "Model checking completed. No error has been found." not in res["out"]:
+        raise ToolError("TV_Call on the suite trace failed:\n" + "\n".join(res["out"].splitlines()[-30:]))
+    ctx.states += res["distinct"]; ctx.transitions += res["states"]
+    lines = open(rec).read().splitlines()
+    nbad = 0
+    for mm in re.finditer(r'<<"VERDICT", (\d+), "([\w-]+)">>', res["out"]):
+        if mm.group(2) == "skipped":
+            continue
+        r = json.loads(lines[int(mm.group(1)) - 1])
+        nbad += 1
+        ctx.verdicts.add({"kind": "mismatch", "why": "a call made by the repository's own test suite disagrees with the specification (%s)" % mm.group(2), "sc": [ctx.pid],
+                          "rule": r["plain"]["rule"], "data": r["plain"]["data"], "expected": "Eval(rule, data)", "actual": r["plain"]["out"], "profile": "test-profile"}, "suite-trace")
+    ctx.evaluations += len(lines); ctx.validated += len(lines) - nbad
+    ctx.validate_events(ev, "suite-trace")
+    ctx.notes["suite_trace"] = info
+    log("  suite trace: %d apply calls made by the repository's own tests (%d distinct) validated by TLC" % (info["calls"], info["distinct_records"]))
+
+
 def plan_C05(ctx):
     ctx.rule = ("TLC model-checks the small-step machine on if / ?: / and / or x every operand list of length 0..5 over the alphabet {truthy log probe, falsy log probe "
                 "(distinct falsy value per position), eval-poison, parse-poison, positional data reference%s} and lengths 6%s over {probes, eval-poison}; each terminal state "
@@ -381,6 +422,8 @@ def plan_C05(ctx):
                 "non-trivial when it is distinct (all lists are)" % (", truthy/falsy literals, nested and" if ctx.deep else "", "..7" if ctx.deep else ""))
     ctx.machine("C05")
     ctx.records("ctl")
+    if ctx.deep:
+        suite_traces(ctx)
     ctx.exhaustive = True   # the TLC-enumerated family; the random records on top of it are sampled
 
 
@@ -396,6 +439,8 @@ def plan_C04(ctx):
     ctx.replay(cases, profiles=("release",), source="substitution")
     ctx.validate_events(ev, "substitution")
     ctx.records("mix")
+    if ctx.deep:
+        suite_traces(ctx)
     ctx.exhaustive = True   # the TLC-enumerated family; the random records on top of it are sampled
 
 
